@@ -107,7 +107,9 @@ def obs_record(src, o):
         r["wasm"] = "ok" if (w["error"] == "" and w["api"] != "") else "error"
     l = o.get("lsp")
     if l is not None and not l["dead"] and not l["hung"]:
-        r["lsp"] = "diagnostics" if l["diagnostics"] >= 1 else "clean"
+        # two load/evaluate cycles on the same sources (from disk, then with the main document opened): the same verdict both times
+        a, b = l["diagnostics"] >= 1, l.get("diagnostics_open", l["diagnostics"]) >= 1
+        r["lsp"] = "diagnostics" if (a and b) else ("clean" if not (a or b) else "flapping")
     return r
 
 
@@ -120,6 +122,8 @@ def diagnose(rec):
     if len(exits) > 1:
         return "C13|cli-exit-depends-on-configuration|%s" % p
     fails = exits[0] == 1
+    if rec.get("lsp") == "flapping":
+        return "C13|lsp-diagnostics-differ-between-two-cycles-on-the-same-sources|%s" % p
     if any(c.get("decoy_changed") for c in rec["cli"]):
         return "C13|configuration-file-target-written-although-overridden-by-option|%s" % p
     if fails and any(c["changed"] for c in rec["cli"]):
